@@ -3,6 +3,7 @@ package main
 import (
 	"fmt"
 	"go/constant"
+	"go/token"
 	"go/types"
 
 	"golang.org/x/tools/go/ssa"
@@ -118,11 +119,28 @@ func digitOnly(c *Ctx, v ssa.Value, at ssa.Instruction, depth int) (bool, string
 // implies that r is a digit?
 func validatedBy(c *Ctx, v ssa.Value, at ssa.Instruction) (bool, string) {
 	fn := at.Parent()
-	refs := v.Referrers()
-	if refs == nil {
-		return false, ""
+	// a variable captured by a closure lives in a cell: every read of a cell that is written exactly
+	// once (the parameter spill) is the same string
+	cands := []ssa.Value{v}
+	if ld, isLd := v.(*ssa.UnOp); isLd && ld.Op == token.MUL {
+		if a, isA := ld.X.(*ssa.Alloc); isA {
+			if stores, paths, _ := storesTo(a); len(stores) == 1 && len(paths[0]) == 0 {
+				cands = append(cands, stores[0].Val)
+				for _, r := range *a.Referrers() {
+					if l2, ok := r.(*ssa.UnOp); ok && l2.Op == token.MUL && l2 != ld {
+						cands = append(cands, l2)
+					}
+				}
+			}
+		}
 	}
-	for _, ref := range *refs {
+	var allRefs []ssa.Instruction
+	for _, cv := range cands {
+		if rr := cv.Referrers(); rr != nil {
+			allRefs = append(allRefs, *rr...)
+		}
+	}
+	for _, ref := range allRefs {
 		rg, ok := ref.(*ssa.Range)
 		if !ok || rg.Parent() != fn {
 			continue
